@@ -10,6 +10,7 @@ from sa.selftest import Mutant, Silent
 from sa.source import AnalysisError, class_assigns
 from sa.props._lib_e_machine import PyRaise, exc_name
 from sa.props._lib_e_http import Harness, check_name_encoder_behaviour
+from sa.props._lib_e_struct import (c19_bad_request_helper, c19_framing_decision, c19_identity_decoder, c19_int_provenance, c19_reject_discipline, structural)
 from sa.props._lib_e import (Unknown, assigns_self, call_in, calls_named, catches, check_hex_validators, check_name_encoder, check_token_validator, falsy_until_exit,
                              handlers_of, http_interp, is_const, is_falsy_return, local_values, make_env, only_nodes_until_exit,
                              ordered, resolve_local, risky_calls, self_attr, site_label, walk)
@@ -24,21 +25,22 @@ RESPOND = "self._respondToBadRequestAndDisconnect"
 FAIL = "self._failChooseTransferDecoder"
 CHOOSE = "self._maybeChooseTransferDecoder"
 
-TECHNIQUE = 'AST interpretation of HTTPChannel on generated request streams vs an RFC 9112 reference decision'
+TECHNIQUE = 'finite-exhaustive validators + guard valuations; CFG must-pass/provenance on inlined view; bounded interpreted streams'
 EXPLANATION = (
-    'The repository source is never imported or run: an AST interpreter (sa/props/_lib_e_machine.py) executes the syntax trees of web/http.py, http_headers'
-    '.py, _abnf.py, protocols/basic.py, policies.py and internet/protocol.py with model collaborators (transport, clock, network producer, body file) whose'
-    ' inputs are observable; unknown externals are opaque values that fork the path. Helper methods are simply executed, so extract/inline-helper, guard-cl'
-    'ause, temporaries, comprehension refactorings do not matter. Decided: (a) _istoken/_ishexdigits/_hexint/_parseRequestLine evaluated over every byte va'
-    'lue in every position plus the regex/idiom pitfalls (trailing LF/CRLF, NUL, blanks, empty) accept exactly tchar / HEXDIG / method SP 1*VCHAR SP HTTP/1'
-    '.0|1.1; _NameEncoder.encode refuses an invalid name on every use (cache never serves an unvalidated name) and canonicalises; (b) grammar-generated hea'
-    'der blocks (Content-Length and Transfer-Encoding values, duplicates and conflicts in first/middle/last position, name case, optional whitespace, inval'
-    'id header lines, request lines, size limits, malformed chunked bodies) followed by a body and a pipelined second request, delivered whole, split in he'
-    "aders/body/after the body and line by line, are compared with a reference decision written out in the checker: either exactly '400 Bad Request', conne"
-    'ction closed, nothing handed to the application, or the request with exactly its body (handed over when its last byte arrives) followed by the intact '
-    'next request; (c) with a transport that keeps delivering after loseConnection nothing is processed after a 400 (known finding F19b for header-level re'
-    'jections); (d) handler bodies of the channel contain no strict decode/int/index on untrusted bytes. Not decided: obs-fold, agreement with an independe'
-    'nt parser beyond the generated grammar, query-string decoding.'
+    'Structural and finite-exhaustive rules run on a normalised view (private helpers inlined at their call sites, temporaries followed by partial evaluati'
+    'on, guard clauses read through the CFG) and abstain with a note when a shape is not recognised; the bounded layer (source interpreted by an AST interp'
+    'reter with model collaborators, compared with an oracle) covers every clause a second time and is the only evidence where stated. FINITE-EXHAUSTIVE: _'
+    'istoken/_ishexdigits/_hexint/_parseRequestLine over all 256 byte values in every position class plus idiom pitfalls (byte-class/, request-line/); the '
+    'framing decision of _maybeChooseTransferDecoder under every valuation of its guards - header in {Content-Length, Transfer-Encoding, other} x value cla'
+    'ss (1*DIGIT or not; chunked / identity / other coding) x decoder already chosen or not (decision/): non-digit lengths, unknown codings, repeated or co'
+    'nflicting framing headers fail; identity decoder over every ordering of len(data) vs contentLength (ordering/). STRUCTURAL: int() on header data domin'
+    'ated by the digit test, length/decoder/callbacks installed together from the validated value (provenance/); every 400 site is followed only by falsy r'
+    "eturns, every validating method's result is used (F19b = the one dropped result, known), decoder errors reach a 400, the 400 helper writes the status "
+    'line then closes (mustpass/); the name-encoder cache is filled and read only behind _istoken (header-name/); handler bodies cannot raise on untrusted '
+    'bytes (reject/reject-path-cannot-raise). BOUNDED ONLY: agreement of the delivered requests with the reference decision on generated header blocks and '
+    'deliveries (framing/), nothing processed after a 400 on a transport that keeps delivering (reject/nothing-processed-after-400), presence of each indiv'
+    "idual syntax check in headerReceived (colon, NUL, OWS) - a structural decider for 'a check is present' would have to pin the shape. Not decided: obs-f"
+    'old, agreement with an independent parser beyond the generated grammar.'
 )
 ASSUMPTIONS = [
     'CPython semantics for the builtin values the interpreter delegates to (bytes, int, list, dict, re on constant patterns)',
@@ -358,12 +360,32 @@ def _reject_paths(ctx):
     ctx.floor("reject/reject-path-cannot-raise", n, 3)
 
 
+RULE_KINDS = {
+    "byte-class/": "finite-exhaustive",     # validators evaluated over all 256 byte values in every position class + idiom pitfalls
+    "request-line/": "finite-exhaustive",   # every byte value in method / target / version position + structural line forms
+    "decision/": "finite-exhaustive",       # _maybeChooseTransferDecoder under every valuation of its guards (header class x value class x decoder present)
+    "ordering/": "finite-exhaustive",       # identity decoder: every ordering of len(data) vs contentLength
+    "mustpass/": "structural",              # must-pass-through / dominance on the inlined CFGs
+    "provenance/": "structural",            # def-use / provenance of length, decoder, callbacks, int() argument
+    "header-name/cache": "structural", "header-name/validated": "structural", "header-name/invalid-raises": "structural",
+    "reject/reject-path-cannot-raise": "structural",
+    "header-name/invalid-refused-every-time": "bounded", "header-name/canonical-form": "bounded",
+    "framing/": "bounded", "reject/nothing-processed-after-400": "bounded",
+}
+
+
 def check(ctx):
     I = http_interp(ctx)
     with ctx.section("byte classes"):
         _byte_classes(ctx, I)
     with ctx.section("request line"):
         _request_line(ctx, I)
+    structural(ctx, "C19 framing decision over all guard valuations", lambda s: c19_framing_decision(s, I), "framing/content-length-value, framing/transfer-coding, framing/conflicting-framing (bounded)")
+    structural(ctx, "C19 int() provenance", lambda s: c19_int_provenance(s, I), "framing/content-length-value (bounded)")
+    structural(ctx, "C19 reject discipline (400 and stop, results used, decoder errors)", lambda s: c19_reject_discipline(s, I), "framing/* and reject/nothing-processed-after-400 (bounded)")
+    structural(ctx, "C19 400 helper", lambda s: c19_bad_request_helper(s), "framing/* (bounded)")
+    structural(ctx, "C19 identity decoder orderings", lambda s: c19_identity_decoder(s, ctx), "framing/* split deliveries (bounded)")
+    structural(ctx, "C19 header-name encoder cache discipline", lambda s: check_name_encoder(s, I), "header-name/invalid-refused-every-time (bounded)")
     H = Harness(ctx)
     with ctx.section("header name encoder"):
         check_name_encoder_behaviour(ctx, H)
